@@ -222,6 +222,33 @@ theorem get_damage_mono_in_factor (c c' : Calculator) (log : Log) (r r' : Rat)
   have : 0 ≤ log.damage * (1 / 100) * log.hit := by positivity
   exact mul_le_mul_of_nonneg_right (mul_le_mul_of_nonneg_right (mul_le_mul_of_nonneg_left hf this) h1) h2
 
+/-- damage is never negative for non-negative damage%, hits, advantages and damage factor -/
+theorem get_damage_nonneg (c : Calculator) (log : Log) (r : Rat)
+    (htag : log.tag = tagDamage)
+    (hd : 0 ≤ log.damage) (hh : 0 ≤ log.hit) (h1 : 0 ≤ c.level_advantage) (h2 : 0 ≤ c.force_advantage)
+    (hf : 0 ≤ c.damageFactor (c.character_spec.add log.buff) c.armor)
+    (hr : getDamage c log = .ok r) : 0 ≤ r := by
+  unfold getDamage at hr
+  simp only [htag, if_true] at hr
+  injection hr with hr
+  rw [← hr]; unfold damageFormula
+  positivity
+
+/-- a log with no hits, or with 0 % skill damage, deals no damage whatever the stats are -/
+theorem get_damage_zero (c : Calculator) (log : Log) (r : Rat)
+    (hz : log.hit = 0 ∨ log.damage = 0) (hr : getDamage c log = .ok r) : r = 0 := by
+  unfold getDamage at hr
+  simp only [] at hr
+  split at hr
+  · injection hr with hr
+    rw [← hr]; unfold damageFormula
+    rcases hz with h | h <;> rw [h] <;> ring
+  · split at hr
+    · injection hr with hr
+      rw [← hr]; unfold damageFormula
+      rcases hz with h | h <;> rw [h] <;> ring
+    · cases hr
+
 /-! ## 2. Cooldown -/
 
 /-- `calculate_cooldown` is the flat stage (`cdFlat`: 10 s taper, 5 s floor) applied to the value `cd`
@@ -349,6 +376,21 @@ theorem level_advantage_zero_beyond_table (mob character : Int)
   rw [if_neg (by omega), getD_ge]
   omega
 
+/-- at or below the first table index (the character out-levels the monster by at least `bias`) the
+    advantage is the maximum 1.2: the lookup clamps instead of indexing from the end of the table, as a
+    negative Python index would -/
+theorem level_advantage_max_below_table (mob character : Int)
+    (h : mob - character + LevelAdvantage.bias ≤ 0) :
+    LevelAdvantage.get_advantage mob character = some (6 / 5) := by
+  rw [get_advantage_eq]
+  congr 1
+  unfold advAt
+  split
+  · exact table_head_eq
+  · next h0 =>
+    have : mob - character + LevelAdvantage.bias = 0 := by omega
+    rw [this]; exact table_head_eq
+
 /-! ## non-vacuity: concrete instances of every hypothesis set -/
 
 /-- a realistic pair of stat blocks (armor 300, ignore 90 % → armour term 0.7 > 0) -/
@@ -386,6 +428,7 @@ example : ({ cooltime_reduce_rate := 5, cooltime_reduce := 4000 } : ActionStat).
 
 /-- the level pairs pinned by tests/simulate/report/test_level_advantage.py and the table boundary -/
 example : LevelAdvantage.get_advantage 30 200 = some (6 / 5) := by decide +kernel
+example : LevelAdvantage.get_advantage 195 200 = some (6 / 5) := by decide +kernel   -- index 0 exactly
 example : LevelAdvantage.get_advantage 30 29 = some (1323 / 1250) := by decide +kernel
 example : LevelAdvantage.get_advantage 100 75 = some (19 / 50) := by decide +kernel
 example : LevelAdvantage.get_advantage 240 200 = some 0 := by decide +kernel
